@@ -23,7 +23,14 @@ MODEL_CFG = 1          # Model/Analysis.v cfgF: the code with the two repairs (0
 EXT_SINGLE = [2, 8, 32, 64, 128, 512, 1024, 2050]   # one extension each (2050 = intermediate preparations)
 SIGMA = ["a", "b", " ", "\n", "@", "&", "(", ")", "~", "=", "1", "{", "}", ">", "\\"]
 
-WITNESSES = [">", "\\", "> \n\nstep", "a\n\n\\", "= A\n\n>\n", ">> [mode]: text\n\\"]
+WITNESSES = [">", "\\", "> \n\nstep", "a\n\n\\", "= A\n\n>\n", ">> [mode]: text\n\\",
+             # a reference spelled with the ALIAS of a definition: not found (explicit) / a new definition (implicit)
+             "@white wine|wine{}\n\n@&wine{}", "#cast iron skillet|skillet{}\n\n#&skillet{}",
+             ">> [duplicate]: reference\n\n@white wine|wine{}\n\n@wine{}",
+             ">> [duplicate]: reference\n\n#cast iron skillet|skillet{}\n\n#skillet{}",
+             # control: the alias is also the name of another definition, which is the one referenced
+             "@wine{}\n\n@white wine|wine{}\n\n@&wine{} @&White Wine{}",
+             "@white wine|wine{}\n\n@wine{}\n\n@&wine{} @&white wine{}"]
 
 
 def enum_strings(alpha, maxlen):
@@ -222,10 +229,49 @@ def gen_clean(rng):
     return "\n\n".join(out) + rng.choice(["", "\n"])
 
 
+ALIASED = [("white wine", "wine"), ("olive oil", "oil"), ("crème fraîche", "Crème"), ("flour", "Flour"),
+           ("sea salt", "salt"), ("é", "e")]
+ALIASED_POTS = [("cast iron skillet", "skillet"), ("big pan", "pan"), ("pot", "POT")]
+
+
+def gen_alias(rng):
+    """Definitions that carry an alias, then references spelled with the alias, with the name, or with the name
+    of another definition that equals the alias (control); ingredients and cookware; explicit `&` and the
+    implicit forms of `[duplicate]: reference` / `[mode]: steps`."""
+    out = []
+    implicit = rng.random() < 0.4
+    if implicit:
+        out.append(rng.choice([">> [duplicate]: reference", ">> [duplicate]: ref", ">> [mode]: steps"]))
+    sig = "#" if rng.random() < 0.35 else "@"
+    pool = ALIASED_POTS if sig == "#" else ALIASED
+    defs = rng.sample(pool, rng.randint(1, min(3, len(pool))))
+    steps = []
+    control = rng.random() < 0.35
+    for (name, alias) in defs:
+        d = "%s%s|%s{%s}" % (sig, name, alias, rng.choice(["", "1", "2"]))
+        if control and rng.random() < 0.5:
+            # another definition really named like the alias, before or after the aliased one
+            other = "%s%s{}" % (sig, alias)
+            steps.append(rng.choice([other + " and " + d, d + " then " + other, other, d]))
+            if steps[-1] in (other, d):
+                steps.append(d if steps[-1] == other else other)
+        else:
+            steps.append(rng.choice([d, "add " + d, d + " mix"]))
+    if rng.random() < 0.2:
+        steps.append("= Part")
+    for _ in range(rng.randint(1, 4)):
+        name, alias = rng.choice(defs)
+        spelled = rng.choice([alias, alias, alias.upper(), name, name.title(), alias + "x"])
+        amp = "" if (implicit and rng.random() < 0.7) else "&"
+        steps.append("%s %s%s%s{%s}" % (rng.choice(["use", "add", "then"]), sig, amp, spelled, rng.choice(["", "", "1"])))
+    out += steps
+    return "\n\n".join(out) + rng.choice(["", "\n"])
+
+
 def gen_cases(rng, n, ext_choices, mut_rate):
     cases = []
     for k in range(n):
-        s = gen_clean(rng) if k % 2 else gen_recipe(rng)
+        s = gen_alias(rng) if k % 6 == 5 else (gen_clean(rng) if k % 2 else gen_recipe(rng))
         ext = rng.choice(ext_choices)
         conv = rng.choice([0, 1])
         mut = "-"
@@ -496,7 +542,8 @@ def run(rep, tier, seed):
         "exhaustive": True,
         "rule": "corpus + witnesses under 10 extension sets x 2 converters on both builds; %d seeded recipes, half of "
                 "them well-formed with most components being references (explicit, implicit under the duplicate/steps "
-                "modes, to steps and to sections, names differing in case), half noisy dense-reference "
+                "modes, to steps and to sections, names differing in case), a sixth of them definitions with an alias "
+                "followed by references spelled with the alias / the name / another definition's name, half noisy dense-reference "
                 "recipes (3-5 names reused, all modifiers, aliases, notes, intermediate references in and out of "
                 "range, mode and duplicate switches, text blocks, sections, timers, front matter, inline "
                 "quantities) under %d extension sets and both converters on both builds, 12%% of them as malformed "
